@@ -87,8 +87,9 @@ Print Assumptions C14_x86_mul_to_spill_latent_refuted.
        every program: tag guard / name-digits / noguard) cannot be dropped: C14_compile_labels_unique_refuted.
        This is the known finding label-collision-name-digits (witnesses corpus/c14/, harness/src/c14probe.rs).
    (e) jump-table stride for AArch64 (`B l`) and RISC-V (`JAL X0 l`): entry k at jump_length k bytes.
-   CHECKED, not proved, for AArch64 / RISC-V: encodability of immediates, offsets, shifts and register
-   classes (Sem/A64Wf.v, Sem/RVWf.v: asm_wf on the implementation's output, steps wf-a64 / wf-rv). *)
+   CHECKED, not proved in round 2, for AArch64 / RISC-V: encodability of immediates, offsets, shifts and register
+   classes (Sem/A64Wf.v, Sem/RVWf.v: asm_wf on the implementation's output, steps wf-a64 / wf-rv); PROVED in round 4
+   (end of this file: C14_a64_compile_asm_wf, C14_rv_compile_asm_wf). *)
 
 Theorem C14_label_texts_not_injective :
   pr (GCL "Aa" 18 "Bx_19_Cy") = pr (GCL "Aa_18_Bx" 19 "Cy") /\ pr (GCL "Aa" 18 "Bx_19") = pr (GTL "Aa_18_Bx" 19).
